@@ -11,7 +11,9 @@ from ..core import CRASH
 
 ID = "C08"
 LEVEL = "exploration"
-RULE = ("(a2) two-line indented code blocks whose second line re-enters the same quote/list containers with every "
+RULE = ("(a3) fences / indented code / HTML blocks with multi-line bodies in 7 container shapes after 9 preambles of "
+        "the same container, exact expected content; (a4) the column-exact quote lines again after preambles that "
+        "make the block parser scan the line twice; (a2) two-line indented code blocks whose second line re-enters the same quote/list containers with every "
         "spelling of every blank run (depth 1 fully, depth 2 with one of the two lines in canonical spelling); "
         "(a) column-exact: every line made of <=2 (thorough 3) container segments (marker in >, ' >', '   >', -, 1., "
         "' -', 10)) x every blank run over 11 space/tab spellings x payloads, expected content from an independent "
@@ -187,6 +189,48 @@ MARK2 = [">", " >", "-", "1."]
 WS_CANON = [" ", "    ", "     "]
 
 
+# ---- (a3) verbatim blocks with a multi-line body in containers, after other blocks of the same container --------
+V_CONTAINERS = [("", ""), ("> ", "> "), ("- ", "  "), ("> - ", ">   "), ("- > ", "  > "), ("> > ", "> > "), ("1. ", "   ")]
+V_PREAMBLES = [[], ["text", ""], ["# h"], ["t", "==="], ["t", "---", ""], ["- i", ""], ["***"], ["[r]: /u", ""], ["a|b", "-|-", ""]]
+V_BLOCKS = [("fence", ["```", "a", "b", "```"], "a\nb\n"), ("fence", ["~~~ x", "a", " b", "", "c"], "a\n b\n\nc\n"),
+            ("code_block", ["    a", "     b", "", "    c"], "a\n b\n\nc\n"), ("html_block", ["<div>", "a", " b", "</div>"], "<div>\na\n b\n</div>\n"),
+            ("fence", [" ```", " a", "b", "  c", " ```"], "a\nb\n c\n")]
+
+
+def v_docs():
+    for first, cont in V_CONTAINERS:
+        for pre in V_PREAMBLES:
+            for kind, body, exp in V_BLOCKS:
+                lines = pre + body
+                if kind == "code_block" and pre and pre[-1] != "":
+                    continue  # indented code cannot interrupt a paragraph-like line
+                in_list = "-" in first or "1." in first
+                if in_list and pre[:1] == ["a|b"]:
+                    continue  # the table rule takes the list marker line ('- a|b' + '-|-' is a table, not a list)
+                if in_list and body[0].startswith(" "):
+                    continue  # a body line indented less than the item's content offset would end the item
+                src = "\n".join((first if i == 0 else cont) + l if (l or cont.strip()) else (first if i == 0 else cont).rstrip()
+                                 for i, l in enumerate(lines)) + "\n"
+                yield src, kind, exp
+
+
+def v_case(md, src, kind, exp, acc):
+    toks = acc.call(md.parse, src)
+    if toks is CRASH:
+        return None
+    vb = [t for t in toks if t.type == kind]
+    if len(vb) != 1:
+        return None  # the construct did not form in this configuration (e.g. table preamble): nothing to check
+    acc.sig(("v", src))
+    if vb[0].content != exp:
+        return f"{kind} content {vb[0].content!r} != source lines without their container prefix {exp!r}"
+    return None
+
+
+# ---- (a4) the column model after a preamble that makes the block parser re-scan lines -----------------------------
+COL_PREAMBLES = ["> ```\nlazy\n", "> # h\nlazy\n", "> ***\nlazy\n", "a\n\n", "> a\n\n", "- a\n\n", "> - a\nlazy\n"]
+
+
 # ---- (b) verbatim tokens vs their source lines ---------------------------------------------------------
 HEAD_OK = re.compile(r"^[ \t>\-+*0-9.)]*$")
 
@@ -195,7 +239,12 @@ def verbatim(src, tokens, acc):
     lines = src.replace("\r\n", "\n").replace("\r", "\n").replace("\x00", "�").split("\n")
     if lines and lines[-1] == "":
         lines.pop()
+    nquotes = 0
     for t in tokens:
+        if t.type == "blockquote_open":
+            nquotes += 1
+        elif t.type == "blockquote_close":
+            nquotes -= 1
         if t.type not in ("code_block", "fence", "html_block") or not t.map:
             continue
         b, e = t.map
@@ -239,6 +288,10 @@ def verbatim(src, tokens, acc):
                 return f"{t.type}: removed head of line {i} contains non-indentation characters"
             if len(l) - len(core) > cols(head):
                 return f"{t.type}: content line {i} has more leading spaces than the source has columns"
+            if head.count(">") < nquotes and srcl.strip(" \t>") != "":
+                # a verbatim block has no lazy lines: every line re-enters all enclosing quotes, and those
+                # markers belong to the removed prefix, not to the content
+                return f"{t.type}: content line {i} keeps a block quote marker of its container"
     return None
 
 
@@ -402,6 +455,9 @@ def shards(tier):
         sh.append(("col2", mk, 2, "second-canonical"))
         if th:
             sh.append(("col2", mk, 3, "first-canonical"))
+    sh.append(("vfam",))
+    for pi in range(len(COL_PREAMBLES)):
+        sh.append(("colpre", pi, 2 if th else 1))
     for f in BT_ATOMS:
         sh.append(("bt", f, 6 if th else 5))
     for f in ("[", "[a", "![", "[`"):
@@ -464,6 +520,42 @@ def run_shard(sh, acc):
                 if r:
                     acc.violation(kind, re.sub(r"'[^']*'", "_", r)[:50], {"cfg": c, "l1": l1, "o1": origin + 4, "l2": l2, "o2": o2}, r)
         acc.sample(kind, {"l1": ">\t\tx", "l2": " >\t\ty", "mode": mode, "depth": d}, 1)
+    elif kind == "vfam":
+        for c in CFGS:
+            md = C.build(c)
+            for src, k, exp in v_docs():
+                acc.case()
+                r = v_case(md, src, k, exp, acc)
+                if r:
+                    acc.violation(kind, f"{k} in a container differs from its source lines", {"cfg": c, "src": src, "kind": k, "exp": exp}, r)
+        acc.sample(kind, {"src": "> text\n>\n> ```\n> a\n> b\n> ```\n", "kind": "fence", "exp": "a\nb\n"}, 1)
+    elif kind == "colpre":
+        _, pi, depth = sh
+        pre = COL_PREAMBLES[pi]
+        c = CFGS[0]
+        md = C.build(c)
+        for d in range(1, depth + 1):
+            for prefix, origin in build(d):
+                if not prefix.lstrip(" ").startswith(">"):
+                    continue
+                pc = cols(prefix)
+                if pc - origin < 4:
+                    continue
+                line = prefix + "x"
+                acc.case()
+                toks = acc.call(md.parse, pre + line + "\n")
+                if toks is CRASH:
+                    continue
+                cb = [t for t in toks if t.type == "code_block"]
+                exp = strip_cols(line, origin + 4) + "\n"
+                if len(cb) != 1:
+                    continue
+                acc.sig(("colpre", pi, line))
+                if cb[0].content != exp:
+                    acc.violation(kind, "code content after a preamble differs from the column model",
+                                  {"cfg": c, "pre": pre, "line": line, "origin": origin},
+                                  f"code content {cb[0].content!r} != column model {exp!r} (alone the same line is correct)")
+        acc.sample(kind, {"pre": pre, "line": ">\t\tx"}, 1)
     elif kind == "bt2":
         # link-label lookahead in front of backtick strings (the label is scanned ahead, then tokenized)
         _, f, L = sh
@@ -509,6 +601,20 @@ def check_case(case, acc):
         r = col_case(md, case["line"], case["origin"], case["pc"], case["payload"], acc)
         if r:
             acc.violation(sub, re.sub(r"'[^']*'", "_", r)[:50], {k: v for k, v in case.items() if k != "sub"}, r)
+    elif sub == "vfam":
+        md = C.build(case["cfg"], fresh=True)
+        r = v_case(md, case["src"], case["kind"], case["exp"], acc)
+        if r:
+            acc.violation(sub, f"{case['kind']} in a container differs from its source lines", {k: v for k, v in case.items() if k != "sub"}, r)
+    elif sub == "colpre":
+        md = C.build(case["cfg"], fresh=True)
+        line = case["line"]
+        toks = acc.call(md.parse, case["pre"] + line + "\n")
+        cb = [] if toks is CRASH else [t for t in toks if t.type == "code_block"]
+        exp = strip_cols(line, case["origin"] + 4) + "\n"
+        if len(cb) == 1 and cb[0].content != exp:
+            acc.violation(sub, "code content after a preamble differs from the column model", {k: v for k, v in case.items() if k != "sub"},
+                          f"code content {cb[0].content!r} != column model {exp!r}")
     elif sub == "col2":
         md = C.build(case["cfg"], fresh=True)
         r = col2_case(md, case["l1"], case["o1"], case["l2"], case["o2"], acc)
